@@ -253,6 +253,8 @@ impl CwdClass {
 
 pub struct Sandbox {
     _scratch: Scratch,
+    /// the case's scratch directory (`base` = `top/x/y/z`)
+    pub top: PathBuf,
     pub base: PathBuf,
     pub outer: PathBuf,
     pub root: PathBuf,
@@ -263,8 +265,12 @@ impl Sandbox {
     /// `base/outer/{.git/, sentinels…, ws/<files>}` and `base/elsewhere/…`.
     pub fn new(tag: &str, ws_files: &[(String, Vec<u8>)]) -> Sandbox {
         let scratch = Scratch::new(tag);
-        let base = scratch.path().to_path_buf();
+        // three spare levels above the sandbox: a path that climbs out of `outer/` with a few
+        // `..` still lands inside this case's scratch directory, where `outside()` sees it (and
+        // where it is removed with the case)
+        let base = scratch.path().join("x").join("y").join("z");
         let sb = Sandbox {
+            top: scratch.path().to_path_buf(),
             _scratch: scratch,
             outer: base.join("outer"),
             root: base.join("outer").join("ws"),
@@ -278,8 +284,12 @@ impl Sandbox {
     /// Wipe and rebuild the whole tree at the same location (used where an engine bound to this
     /// root is kept across cases).
     pub fn repopulate(&self, ws_files: &[(String, Vec<u8>)]) {
-        let _ = std::fs::remove_dir_all(&self.outer);
-        let _ = std::fs::remove_dir_all(&self.elsewhere);
+        // everything below the scratch directory goes, including strays beside the sandbox
+        if let Ok(rd) = std::fs::read_dir(&self.top) {
+            for e in rd.flatten() {
+                let _ = std::fs::remove_dir_all(e.path()).or_else(|_| std::fs::remove_file(e.path()));
+            }
+        }
         self.populate(ws_files);
     }
 
@@ -327,9 +337,9 @@ impl Sandbox {
         }
     }
 
-    /// Everything under the scratch base except the workspace root.
+    /// Everything under the case's scratch directory except the workspace root.
     pub fn outside(&self) -> Snapshot {
-        snap(&self.base, &["outer/ws"])
+        snap(&self.top, &["x/y/z/outer/ws"])
     }
 
     /// The workspace root including `.rip`.
